@@ -1,6 +1,7 @@
 package main
 
 import (
+	"strings"
 	"fmt"
 
 	tally "github.com/uber-go/tally/v4"
@@ -30,6 +31,11 @@ func c06E2EJob(tier string) *SeqJob {
 			NameCharacters:  tally.ValidCharacters{Ranges: []tally.SanitizeRange{{'a', 'z'}}},
 			KeyCharacters:   tally.ValidCharacters{Ranges: []tally.SanitizeRange{{'a', 'z'}}},
 			ValueCharacters: tally.ValidCharacters{Ranges: []tally.SanitizeRange{{'a', 'z'}}}, ReplacementCharacter: 'x'}},
+		// three different sets, none contained in another: '-' only in keys, '.' only in values, ':' only in names
+		{"disjoint extras", tally.SanitizeOptions{
+			NameCharacters:  tally.ValidCharacters{Ranges: []tally.SanitizeRange{{'a', 'z'}}, Characters: []rune{':'}},
+			KeyCharacters:   tally.ValidCharacters{Ranges: []tally.SanitizeRange{{'a', 'z'}}, Characters: []rune{'-'}},
+			ValueCharacters: tally.ValidCharacters{Ranges: []tally.SanitizeRange{{'a', 'z'}}, Characters: []rune{'.'}}, ReplacementCharacter: 'q'}},
 	}
 	alpha := []progOp{
 		{sub: "s.s"}, {sub: "é!"}, {sub: "ok"},
@@ -38,6 +44,7 @@ func c06E2EJob(tier string) *SeqJob {
 		{tag: true, tags: map[string]string{"\xff": "€"}},
 		{tag: true, tags: map[string]string{"s.s": "s.s"}},    // one raw string as subscope name, tag key and tag value
 		{tag: true, tags: map[string]string{"fine": "clean"}}, // nothing to rewrite: the library must still not keep the caller's map
+		{tag: true, tags: map[string]string{"a-b": "c.d"}},    // valid as it is under "disjoint extras" (key with '-', value with '.'): passes unchanged at any depth
 	}
 	depth := tierInt(tier, 2, 3)
 	// every map handed to the library is edited afterwards (dirty strings put in): nothing of that may reach a reporter
@@ -68,8 +75,10 @@ func c06E2EJob(tier string) *SeqJob {
 		spoil(rootTags)
 		spoil(cardTags)
 		s := tally.Scope(root)
+		prev := s
 		steps := 1
 		for _, k := range seq {
+			prev = s
 			if alpha[k].tag {
 				m := cloneTags(alpha[k].tags)
 				s = s.Tagged(m)
@@ -83,14 +92,37 @@ func c06E2EJob(tier string) *SeqJob {
 		s.Gauge("g 2").Update(1)
 		s.Timer("t:3").Record(1)
 		s.Histogram("h€", tally.ValueBuckets{1}).RecordValue(1)
+		if len(seq) > 0 && s != prev {
+			// the scope is closed and the same derivation is made again from its parent before any report pass: the
+			// scope handed out now is a new one, and what it delivers is sanitized like everything else
+			closeScope(s)
+			k := seq[len(seq)-1]
+			if alpha[k].tag {
+				m := cloneTags(alpha[k].tags)
+				s = prev.Tagged(m)
+				spoil(m)
+			} else {
+				s = prev.SubScope(alpha[k].sub)
+			}
+			s.Counter("again-1").Inc(1)
+			s.Gauge("again 2").Update(1)
+			steps += 4
+		}
 		tally.VerifReportOnce(root)
 		steps += 5
 		delivered := 0
+		validTag := false // the tag that is valid as it is has been applied (later Tagged calls in the alphabet use other keys)
+		for _, k := range seq {
+			validTag = validTag || (alpha[k].tag && alpha[k].tags["a-b"] != "")
+		}
 		for i, e := range rec.Log {
 			if e.Name == "" && e.Tags == nil {
 				continue
 			}
 			delivered++
+			if validTag && c.name == "disjoint extras" && !strings.HasPrefix(e.Name, "tally") && e.Tags["a-b"] != "c.d" {
+				return "valid-input-not-passed-unchanged", fmt.Sprintf("[%s] log[%d] %s: the tag a-b=c.d is valid as it is and must arrive unchanged", c.name, i, e.String()), steps
+			}
 			if r, ok := allAllowed(c.o.NameCharacters, c.o.ReplacementCharacter, e.Name); !ok {
 				return "unsanitized-name", fmt.Sprintf("[%s] log[%d] %s: name contains %U", c.name, i, e.String(), r), steps
 			}
